@@ -83,6 +83,24 @@ class DomainParser:
             )
 
         pddl_types["object"] = ObjectType
+        # A type may be used as a parent before the line that declares it (with its own parent). Every type is
+        # linked to the declared version of its parent so that the ancestors do not depend on the declaration order.
+        for pddl_type in pddl_types.values():
+            declared_parent = (
+                pddl_types.get(pddl_type.parent.name)
+                if pddl_type.parent is not None
+                else None
+            )
+            if declared_parent is None or declared_parent is pddl_type.parent:
+                continue
+
+            ancestor = declared_parent
+            while ancestor is not None and ancestor is not pddl_type:
+                ancestor = ancestor.parent
+
+            if ancestor is None:  # linking does not close a cycle
+                pddl_type.parent = declared_parent
+
         self.logger.debug(
             f"Extracted {len(pddl_types)} types while parsing the types AST."
         )
